@@ -336,8 +336,8 @@ def expansion_blame(cdir):
             "diagnostics": _tail("".join(errs) or out1, 3000)}
 
 
-def run_ext_crate(ext, names, jobs, timeout_s):
-    """Copy the ext crate and /repo's working tree into one scratch dir, point the dependency at the copy, run Kani."""
+def prepare_ext_crate(ext):
+    """Copy the ext crate and /repo's working tree into one scratch dir and point the dependency at the copy."""
     scratch = new_scratch("x." + ext["crate"])
     repo_copy = os.path.join(scratch, "rrtk")
     os.makedirs(repo_copy)
@@ -350,6 +350,12 @@ def run_ext_crate(ext, names, jobs, timeout_s):
             ct = os.path.join(root, "Cargo.toml")
             write(ct, read(ct).replace("RRTK_PATH", repo_copy))
     write(os.path.join(cdir, ".cargo", "config.toml"), "[net]\noffline = true\n")
+    return cdir
+
+
+def run_ext_crate(ext, names, jobs, timeout_s):
+    """Run the named harnesses of a downstream harness crate with Kani against /repo's working tree."""
+    cdir = prepare_ext_crate(ext)
     out_json = os.path.join(cdir, "kani_out.json")
     cmd = ["cargo", "kani", "-Z", "function-contracts", "-Z", "stubbing", "-Z", "unstable-options", "--no-overflow-checks",
            "--output-format", "terse", "-j", str(jobs), "--export-json", out_json, "--harness-timeout", "900s"]
